@@ -226,6 +226,40 @@ fn check_pool(ev: &mut Ev, s: &[String], two_bound_pairs: &[(usize, usize)]) -> 
             ev.count("law/two-bound-patterns");
         }
     }
+    // Ranges whose two ends are equal in value but spelt differently (chosen
+    // from what was just observed; the whole pool is one case).
+    let mut eq_pairs: Vec<(usize, usize)> = vec![];
+    'find: for a in 0..n {
+        for c in 0..n {
+            if a != c && s[a] != s[c] && mt.get(Op::Le, a, c) && mt.get(Op::Ge, a, c) {
+                eq_pairs.push((a, c));
+                if eq_pairs.len() >= 120 {
+                    break 'find;
+                }
+            }
+        }
+    }
+    for &(a, c) in &eq_pairs {
+        for (lo, hi) in [(Op::Gt, Op::Lt), (Op::Gt, Op::Le), (Op::Ge, Op::Lt), (Op::Ge, Op::Le)] {
+            let text = format!("p{}{}{}{}", lo.text(), s[a], hi.text(), s[c]);
+            let p = Pattern::new(&text).map_err(|e| format!("Pattern::new({text:?}) failed: {e}"))?;
+            for b in 0..n {
+                let got = p.matches(&names[b]);
+                let want = mt.get(lo, b, a) && mt.get(hi, b, c);
+                ev.eval();
+                if got != want {
+                    return Err(format!(
+                        "two-bound (ends equal in value): {text:?} on {:?} = {got}, but its halves give {} and {}",
+                        names[b], mt.get(lo, b, a), mt.get(hi, b, c)
+                    ).into());
+                }
+                if want {
+                    ev.count("law/two-bound-equal-ends-true");
+                }
+            }
+            ev.count("law/two-bound-equal-ends-patterns");
+        }
+    }
     let outside = s.iter().filter(|v| !gv::usable(v) || v.chars().any(|c| !c.is_ascii())).count();
     ev.add("pool/strings", n as u64);
     ev.add("pool/strings-outside-reference-domain", outside as u64);
